@@ -74,6 +74,29 @@ for it in range(N):
                     if abs(s.risk[m]) > 1e-6 * scale: bad("hedged-risk-is-zero", measure=m, residual=s.risk[m], multipliers=[mults[i_] for i_ in inst])
             except Exception as e:
                 bad("hedge-raised", error=repr(e)[:200])
+    # ---- strategy=: the hedging sleeve neutralises the book of another strategy plus its own hedges - also on the second and later runs
+    if nested and n_sec - max(1, n_sec // 2) >= k:
+        pool = [x.name for x in secs[max(1, n_sec // 2):]]
+        inst = list(rs.choice(pool, size=k, replace=False))
+        J = np.array([[(float(unit[m][i_].values[2]) if i_ in unit[m].columns else 0.0) * mults[i_] for m in measures] for i_ in inst])
+        if abs(np.linalg.det(J)) > 1e-3:
+            book = s["sub"]
+            hs = bt.core.AlgoStack(*ups, A.SelectThese(inst), A.HedgeRisks(measures, strategy=book), *ups)
+            try:
+                for rnd_ in range(2):
+                    if rnd_ == 1:
+                        nm_ = [x.name for x in secs[:max(1, n_sec // 2)]][0]
+                        book.transact(float(rs.randint(5, 40)), nm_); s.update(s.now)       # the book moves: hedge again on top of the existing hedges
+                    hs(s); s.update(s.now); evals += 1
+                    # what has to vanish: the root's risk = book + everything held directly (the hedges); the algo hedges target risk + strategy risk
+                    own = {m: sum(c.risk[m] for c in s.children.values() if c is not book) for m in measures}
+                    scale = max(1.0, float(np.abs(J).max()) * 100)
+                    for m in measures:
+                        # HedgeRisks is documented to add the strategy's risk to the target's own risk (which contains the existing hedges)
+                        resid = s.risk[m] + book.risk[m]
+                        if abs(resid) > 1e-6 * scale: bad("hedge-with-strategy-argument-neutralises-target-plus-strategy-risk", measure=m, residual=resid, run=rnd_)
+            except Exception as e:
+                bad("hedge-with-strategy-raised", error=repr(e)[:200])
     # ---- pseudo-inverse with fewer instruments than measures: least-squares minimal residual
     if k >= 2:
         pool = [x.name for x in (secs[max(1, n_sec // 2):] if nested else secs)]
